@@ -471,6 +471,8 @@ def plan(tier, seed):
         if init and init[-1] == "U":
             init, variant = init[:-1], "U"
         d_ = depth if len(init) < 10 else (2 if tier == "quick" else 3)
+        if tier != "quick" and 2 < len(init) < 10:
+            d_ = 4      # depth 5 only from the tables of at most two rows (the alphabet has some sixty operations)
         if variant or not set(init) <= set(NAMES):
             d_ = min(d_, 3)
         jobs.append({"name": f"bfs:{''.join(init) or 'empty'}{variant}:d{d_}", "mode": "pure", "hashseed": seed % 2 ** 32,
